@@ -530,6 +530,8 @@ def exit_decided_by_waitpid(ctx, rule):
 
 
 def run(ctx):
+    from .sweep import r19_13 as _r19_13
+    _r19_13(ctx)
     exit_decided_by_waitpid(ctx, 'R19.11')
     r19_12(ctx)
     r19_9(ctx)
